@@ -528,3 +528,277 @@ Proof.
         rewrite abs_keys. reflexivity.
       * intros k v Hi. rewrite Hget, (In_dget _ _ _ Hdd Hi). reflexivity.
 Qed.
+
+Lemma pop_spec : forall g i, WF g ->
+  (- Z.of_nat (List.length (keys g)) <= i < Z.of_nat (List.length (keys g)))%Z ->
+  exists g', pop g i = Ok g' /\ WF g' /\ abs g' = s_step (abs g) (OPop i).
+Proof.
+  intros g i Hwf Hi. destruct (py_index_In _ (keys g) i Hi) as (v & Hv & Hin).
+  destruct (remove_spec g v Hwf Hin) as (g' & Hr & Hwf' & Habs & _).
+  exists g'. split; [|split; [exact Hwf'|]].
+  - unfold pop. rewrite Hv. exact Hr.
+  - cbn [s_step]. rewrite abs_keys, Hv. exact Habs.
+Qed.
+
+(* ---- sort / sort_by --------------------------------------------------------------------- *)
+
+Lemma sort_keys_perm : forall l, Permutation (sort_keys l) l.
+Proof.
+  intro l. unfold sort_keys. rewrite !sort_vals_perm. apply filter_partition_perm.
+Qed.
+
+(* the leaders listed in the order L, the groups unchanged *)
+Definition reordered (g : gl) (L : list val) : gl := mkGL L (map (fun x => (x, get g x)) L).
+
+Lemma reorder_spec : forall g L, WF g -> ~ In VNaN (keys g) -> NoDup L ->
+  (forall x, In x L <-> In x (keys g)) ->
+  of_dict (map (fun x => (x, get g x)) L) = Ok (reordered g L) /\ WF (reordered g L) /\
+  abs (reordered g L) = map (fun x => (x, s_members (abs g) x)) L /\
+  Permutation (values (reordered g L)) (values g).
+Proof.
+  intros g L Hwf Hnan HL Hin. pose proof Hwf as (Hk & Hdk & Hkd & Hv & Hl).
+  assert (HP : Permutation L (keys g)) by (apply NoDup_Permutation; auto).
+  assert (Hvals : Permutation (flat_map (get g) L) (values g)).
+  { rewrite (Permutation_flat_map (get g) HP).
+    apply Permutation_sym, values_flat_map_get; exact Hwf. }
+  assert (Hwf' : WF (reordered g L)).
+  { apply WF_map; auto.
+    - eapply Permutation_NoDup; [apply Permutation_sym; exact Hvals | exact Hv].
+    - intros k Hi. apply WF_key_get; auto. apply Hin; exact Hi. }
+  pose proof Hwf' as (Hk' & Hdk' & Hkd' & Hv' & Hl'). unfold reordered in *. cbn [keys content] in *.
+  split; [|split; [exact Hwf'|split]].
+  - rewrite of_dict_id; auto.
+    + rewrite dkeys_map. reflexivity.
+    + rewrite dkeys_map. intro Hi. apply Hnan, Hin, Hi.
+  - unfold abs; cbn [keys]. apply map_ext_in. intros x Hx. f_equal.
+    rewrite get_map by exact Hx. apply get_abs; exact Hwf.
+  - unfold values at 1; cbn [content]. rewrite dvalues_map. exact Hvals.
+Qed.
+
+Lemma sort_spec : forall g, WF g -> ~ In VNaN (keys g) ->
+  exists g', sort g = Ok g' /\ WF g' /\ abs g' = s_step (abs g) OSort /\
+    Permutation (values g') (values g).
+Proof.
+  intros g Hwf Hnan. pose proof (sort_keys_perm (keys g)) as HP.
+  assert (HL : NoDup (sort_keys (keys g))).
+  { eapply Permutation_NoDup; [apply Permutation_sym; exact HP | apply Hwf]. }
+  destruct (reorder_spec g (sort_keys (keys g)) Hwf Hnan HL) as (H1 & H2 & H3 & H4).
+  { intro x; split; apply Permutation_in; [exact HP | apply Permutation_sym; exact HP]. }
+  exists (reordered g (sort_keys (keys g))). split; [|split; [exact H2 | split; [|exact H4]]].
+  - unfold sort. rewrite dict_of_keys_map, (keep_first_NoDup_id _ HL). exact H1.
+  - rewrite H3. cbn [s_step]. unfold s_reorder. rewrite abs_keys.
+    change (nodup_keep_first (sort_keys (keys g))) with (keep_first (sort_keys (keys g)) []).
+    rewrite (keep_first_NoDup_id _ HL). reflexivity.
+Qed.
+
+Lemma sort_by_spec : forall g o, WF g ->
+  (forall x, In x o -> In x (keys g)) -> (forall x, In x (keys g) -> In x o) ->
+  ~ In VNaN (keys g) ->
+  exists g', sort_by g o = Ok g' /\ WF g' /\ abs g' = s_step (abs g) (OSortBy o) /\
+    Permutation (values g') (values g).
+Proof.
+  intros g o Hwf H1 H2 Hnan.
+  set (L := keep_first o []).
+  assert (HL : NoDup L) by (apply NoDup_keep_first; constructor).
+  assert (HinL : forall x, In x L <-> In x (keys g)).
+  { intro x. unfold L. rewrite In_keep_first. simpl. split; [intros [[]|H]; auto | auto]. }
+  destruct (reorder_spec g L Hwf Hnan HL HinL) as (R1 & R2 & R3 & R4).
+  exists (reordered g L). split; [|split; [exact R2 | split; [|exact R4]]].
+  - unfold sort_by.
+    assert (F1 : forallb (fun x => mem x (keys g)) o = true) by (apply forallb_mem_incl; exact H1).
+    assert (F2 : forallb (fun s => mem s o) (keys g) = true) by (apply forallb_mem_incl; exact H2).
+    rewrite F1, F2. cbn [negb]. rewrite dict_of_keys_map. exact R1.
+  - rewrite R3. reflexivity.
+Qed.
+
+(* ---- replace_group_leader --------------------------------------------------------------- *)
+
+Lemma replace_first_map : forall a b l, NoDup l ->
+  replace_first a b l = map (fun x => if val_eqb a x then b else x) l.
+Proof.
+  intros a b l; induction l as [|x t IH]; intro Hd; [reflexivity|].
+  inversion Hd as [|y l' Hn Hd']; subst. cbn [replace_first map].
+  veq a x.
+  - subst x. f_equal. rewrite <- (map_id t) at 1. apply map_ext_in. intros y Hy.
+    veq a y; [subst; tauto | reflexivity].
+  - f_equal. apply IH; exact Hd'.
+Qed.
+
+Lemma replace_first_perm : forall a b l, NoDup l -> In a l ->
+  Permutation (replace_first a b l) (b :: filter (fun x => negb (val_eqb a x)) l).
+Proof.
+  intros a b l; induction l as [|x t IH]; intros Hd Hi; [destruct Hi|].
+  inversion Hd as [|y l' Hn Hd']; subst. cbn [replace_first filter].
+  veq a x; cbn [negb].
+  - subst x. rewrite filter_neq_notin by exact Hn. reflexivity.
+  - destruct Hi as [Hi|Hi]; [congruence|]. rewrite (IH Hd' Hi). apply perm_swap.
+Qed.
+
+Lemma replace_leader_spec : forall g l m, WF g -> In l (keys g) -> In m (get g l) ->
+  exists g', replace_group_leader g l m = Ok g' /\ WF g' /\
+    abs g' = s_step (abs g) (OReplaceLeader l m) /\ Permutation (values g') (values g).
+Proof.
+  intros g l m Hwf Hl Hm0.
+  destruct (WF_key_dget g l Hwf Hl) as (cl & Hcl & Hlcl).
+  pose proof Hm0 as Hm. rewrite (get_dget _ _ _ Hcl) in Hm.
+  assert (Em : mem m cl = true) by (apply mem_In; exact Hm).
+  destruct (val_eq_dec m l) as [E|E].
+  - subst m. exists g. split; [|split; [exact Hwf|split; [|reflexivity]]].
+    + unfold replace_group_leader, is_equal. rewrite Hcl, Em, val_eqb_refl. reflexivity.
+    + cbn [s_step]. rewrite <- (map_id (abs g)) at 1. apply map_ext. intros [k vs].
+      cbn [fst snd]. veq l k; [subst; reflexivity | reflexivity].
+  - assert (Hmk : ~ In m (keys g)) by (apply (WF_member_not_key g l m); auto).
+    destruct g as [ks c]. pose proof Hwf as (Hk & Hdk & Hkd & Hvals & Hlead).
+    cbn [keys content] in *.
+    assert (Hmc : ~ In m (dkeys c)) by (rewrite <- Hkd; exact Hmk).
+    set (ks' := replace_first l m ks). set (c1 := dset m cl c).
+    assert (Hdk1 : dkeys c1 = dkeys c ++ [m]) by (apply dkeys_dset_notin; exact Hmc).
+    assert (Hl1 : In l (dkeys c1)).
+    { rewrite Hdk1; apply in_or_app; left; apply Hkd; exact Hl. }
+    destruct (In_dpop_Some _ _ Hl1) as [c2 Hc2].
+    pose proof (dpop_keys _ _ _ Hc2) as Hlr.
+    assert (Hnd1 : NoDup (dkeys c1)) by (rewrite Hdk1; apply NoDup_snoc; auto).
+    pose proof (replace_first_perm l m ks Hk Hl) as Hpk. fold ks' in Hpk.
+    assert (Hin' : forall x, In x ks' <-> x = m \/ (In x ks /\ x <> l)).
+    { intro x. split.
+      - intro Hx. apply (Permutation_in _ Hpk) in Hx.
+        destruct Hx as [Hx|Hx]; [left; auto | right; apply In_filter_neq; exact Hx].
+      - intro Hx. apply (Permutation_in _ (Permutation_sym Hpk)).
+        destruct Hx as [Hx|Hx]; [left; auto | right; apply In_filter_neq; exact Hx]. }
+    assert (Hget : forall x, x <> l -> dget x c2 = if val_eqb x m then Some cl else dget x c).
+    { intros x Hx. rewrite (dget_dpop_other _ _ _ _ Hc2 Hx). unfold c1.
+      veq x m; [subst; apply dget_dset_same | apply dget_dset_other; assumption]. }
+    assert (Hp : Permutation (dvalues c2) (dvalues c)).
+    { destruct (dvalues_dpop_perm _ _ _ Hc2) as (old & Hold & Hp2).
+      unfold c1 in Hold. rewrite dget_dset_other in Hold by congruence.
+      rewrite Hcl in Hold. inversion Hold; subst old.
+      unfold c1 in Hp2. rewrite dvalues_dset_notin in Hp2 by exact Hmc.
+      apply (Permutation_app_inv_l cl). rewrite <- Hp2. apply Permutation_app_comm. }
+    assert (Hwf' : WF (mkGL ks' c2)).
+    { apply WF_intro.
+      - eapply Permutation_NoDup; [apply Permutation_sym; exact Hpk|].
+        constructor; [rewrite In_filter_neq; tauto | apply NoDup_filter; exact Hk].
+      - apply (lremove_NoDup _ _ _ Hnd1 Hlr).
+      - intro x. rewrite Hin', (lremove_In_iff _ _ _ x Hnd1 Hlr), Hdk1, in_app_iff, <- Hkd.
+        simpl. split.
+        + intros [->|[H1 H2]]; split; auto.
+        + intros [[H1|[H1|[]]] H2]; [right; auto | left; auto].
+      - eapply Permutation_NoDup; [apply Permutation_sym; exact Hp | exact Hvals].
+      - intros x vs Hi. apply (In_dpop _ _ _ _ Hc2) in Hi. unfold c1 in Hi.
+        apply In_dset in Hi. destruct Hi as [[-> ->]|Hi]; [exact Hm | eauto]. }
+    exists (mkGL ks' c2). split; [|split; [exact Hwf'|split; [|exact Hp]]].
+    + unfold replace_group_leader, is_equal; cbn [keys content]. rewrite Hcl, Em. cbn [negb].
+      assert (E1 : val_eqb m l = false) by (apply val_eqb_neq; exact E). rewrite E1.
+      assert (E2 : mem l ks = true) by (apply mem_In; exact Hl). rewrite E2. cbn [negb].
+      fold c1. rewrite Hc2. fold ks'.
+      assert (Hs : exists r, sort_by (mkGL ks' c2) ks' = Ok r).
+      { unfold sort_by; cbn [keys].
+        assert (F : forallb (fun o => mem o ks') ks' = true) by (apply forallb_mem_incl; auto).
+        rewrite F. cbn [negb].
+        pose proof Hwf' as (Hk' & _ & _ & Hv' & _). cbn [keys content] in *.
+        rewrite dict_of_keys_map, (keep_first_NoDup_id _ Hk').
+        destruct (of_dict_ok (map (fun k => (k, get (mkGL ks' c2) k)) ks')) as (r & Hr & _).
+        - rewrite dkeys_map; exact Hk'.
+        - rewrite dvalues_map.
+          eapply Permutation_NoDup; [apply (values_flat_map_get _ Hwf') | exact Hv'].
+        - eauto. }
+      destruct Hs as [r Hr]. rewrite Hr. reflexivity.
+    + unfold abs at 1; cbn [keys]. unfold ks'. rewrite (replace_first_map l m ks Hk), map_map.
+      cbn [s_step]. unfold abs; cbn [keys]. rewrite map_map. apply map_ext_in.
+      intros x Hx. cbn [fst snd]. veq l x.
+      * subst x. f_equal. unfold get; cbn [content].
+        rewrite (Hget m E), val_eqb_refl, Hcl. reflexivity.
+      * f_equal. unfold get; cbn [content]. rewrite Hget by congruence.
+        assert (Exm : val_eqb x m = false) by (apply val_eqb_neq; intro; subst; tauto).
+        rewrite Exm. reflexivity.
+Qed.
+
+(* ---- every valid operation: success, invariant, refinement, values ------------------------ *)
+
+Definition preserving (o : op) : Prop :=
+  match o with
+  | OGroup _ _ | OGroupList _ _ | OSort | OSortBy _ | OReplaceLeader _ _ | OCopy => True
+  | _ => False
+  end.
+
+Lemma step_full : forall g o, WF g -> valid g o ->
+  exists g', step g o = Ok g' /\ WF g' /\ abs g' = s_step (abs g) o /\
+    (preserving o -> Permutation (values g') (values g)).
+Proof.
+  intros g o Hwf Hv. destruct o as [d k|ds k|v|d|v|i| |o|l m| ]; cbn [step valid preserving] in *.
+  - (* group *)
+    destruct (val_eq_dec d k) as [E|E].
+    + subst d. exists g. split; [|split; [exact Hwf|split; [|reflexivity]]].
+      * unfold group, is_equal. rewrite val_eqb_refl. reflexivity.
+      * cbn [s_step]. unfold s_group. rewrite val_eqb_refl. reflexivity.
+    + destruct Hv as [Hv|[Hd Hk]]; [congruence|].
+      destruct (group_spec g d k Hwf E Hd Hk) as (g' & H1 & H2 & _ & H3 & H4).
+      exists g'. auto.
+  - (* group_list *)
+    destruct Hv as (Hk & Hds & Hnd).
+    destruct (group_list_spec k ds g Hwf Hk Hds Hnd) as (g' & H1 & H2 & H3 & H4).
+    exists g'. auto.
+  - (* append *)
+    destruct (append_spec g v Hwf Hv) as (H1 & H2 & _).
+    exists (append g v). split; [reflexivity|]. split; [exact H1|]. split; [exact H2|]. intros [].
+  - (* update *)
+    destruct Hv as [Hd Hnv]. destruct (update_spec g d Hwf Hd Hnv) as (H1 & H2).
+    exists (update g d). split; [reflexivity|]. split; [exact H1|]. split; [exact H2|]. intros [].
+  - (* remove *)
+    destruct (remove_spec g v Hwf Hv) as (g' & H1 & H2 & H3 & _).
+    exists g'. split; [exact H1|]. split; [exact H2|]. split; [exact H3|]. intros [].
+  - (* pop *)
+    destruct (pop_spec g i Hwf Hv) as (g' & H1 & H2 & H3).
+    exists g'. split; [exact H1|]. split; [exact H2|]. split; [exact H3|]. intros [].
+  - (* sort *)
+    destruct (sort_spec g Hwf Hv) as (g' & H1 & H2 & H3 & H4). exists g'. auto.
+  - (* sort_by *)
+    destruct Hv as (Ha & Hb & Hnan).
+    destruct (sort_by_spec g o Hwf Ha Hb Hnan) as (g' & H1 & H2 & H3 & H4). exists g'. auto.
+  - (* replace_group_leader *)
+    destruct Hv as [Hl Hm].
+    destruct (replace_leader_spec g l m Hwf Hl Hm) as (g' & H1 & H2 & H3 & H4). exists g'. auto.
+  - (* copy *)
+    exists g. rewrite copy_id. split; [reflexivity|]. split; [exact Hwf|]. split; reflexivity.
+Qed.
+
+Theorem wf_step : forall g o, WF g -> valid g o -> exists g', step g o = Ok g' /\ WF g'.
+Proof.
+  intros g o Hwf Hv. destruct (step_full g o Hwf Hv) as (g' & H1 & H2 & _). eauto.
+Qed.
+
+Fixpoint valid_run (g : gl) (ops : list op) : Prop :=
+  match ops with
+  | [] => True
+  | o :: t => valid g o /\ forall g', step g o = Ok g' -> valid_run g' t
+  end.
+
+Theorem wf_run : forall ops g, WF g -> valid_run g ops ->
+  exists g', run_final g ops = Ok g' /\ WF g'.
+Proof.
+  induction ops as [|o t IH]; intros g Hwf Hv.
+  - exists g; split; [reflexivity | exact Hwf].
+  - destruct Hv as [Hv Hrest]. destruct (wf_step g o Hwf Hv) as (g1 & Hs & Hwf1).
+    cbn [run_final]. rewrite Hs. cbn [bind]. apply IH; auto.
+Qed.
+
+(* refinement to the plain reference model *)
+Theorem abs_step : forall g o g', WF g -> valid g o -> step g o = Ok g' ->
+  abs g' = s_step (abs g) o.
+Proof.
+  intros g o g' Hwf Hv Hs. destruct (step_full g o Hwf Hv) as (g1 & H1 & _ & H3 & _).
+  rewrite H1 in Hs. inversion Hs; subst. exact H3.
+Qed.
+
+(* no value disappears except through remove/pop *)
+Theorem values_preserved : forall g o g', WF g -> valid g o -> preserving o ->
+  step g o = Ok g' -> Permutation (values g') (values g).
+Proof.
+  intros g o g' Hwf Hv Hp Hs. destruct (step_full g o Hwf Hv) as (g1 & H1 & _ & _ & H4).
+  rewrite H1 in Hs. inversion Hs; subst. exact (H4 Hp).
+Qed.
+
+Print Assumptions wf_run.
+Print Assumptions abs_step.
+Print Assumptions values_preserved.
+Print Assumptions get_group_spec.
